@@ -90,6 +90,8 @@ type Ctx struct {
 	// first must carry exactly one :status, a later one (the trailers) none.
 	hdrStatus int
 	hdrBlocks int
+	// hdrEndStream: the HEADERS frame that opened the block carried END_STREAM.
+	hdrEndStream bool
 }
 
 // acquire takes ownership of the Ctx for the connection. It reports false once
@@ -224,6 +226,7 @@ func acquireCtx(req *fasthttp.Request, res *fasthttp.Response) *Ctx {
 	ctx.hdrRegular = false
 	ctx.hdrStatus = 0
 	ctx.hdrBlocks = 0
+	ctx.hdrEndStream = false
 
 	ctx.conn.Store(nil)
 
